@@ -167,6 +167,39 @@ CLAIMED.update({
             "non-interference is covered by the block census.", TECH, "DESIGN.md 6/C20"),
 })
 
+CLAIMED.update({
+    "C04": ("proof",
+            "Model of compute_transformed_extents / analyze_extent (IS_16BIT, per-filter footprint, cover flags, 16.16 test), the affine "
+            "fetcher walk, repeat, pad_repeat_get_scanline_bounds, pixman_malloc_ab* / create_bits with C widths; proved: cover flags "
+            "sound for every pixel of the extents, walk exact and wrap-free incl. the overshoot, unrepresentable => dropped, repeat in "
+            "[0,size), pad bounds, allocation sizes exact or NULL, no assert reachable; white-box correspondence on ~3e5 "
+            "boundary-constructed requests with an exact __int128 oracle; ~6e5 drawing requests per run on exact-size buffers flush "
+            "against PROT_NONE guard pages over 5 implementation chains (ASan sweep in the thorough tier).",
+            TB + "Partial: memory safety of the compiled fetchers / SIMD paths is a runtime fact observed on the executed sweep only; "
+            "projective sources corner-only; edge clamps (S8) not proved. Known findings: sampling a source/mask with width or height 0 "
+            "(SIGFPE / out-of-bounds / hang; no small safe repair: tolerance-test relies on 0-sized REPEAT_NONE sources acting as "
+            "transparent) and edges whose endpoints are 2^31 or more apart (SIGFPE).",
+            TECH + "; guard-page / AddressSanitizer drawing sweep as runtime oracle", "DESIGN.md 6/C04"),
+    "C10": ("proof",
+            "Codec/memory model for all formats of the table regenerated from pixman.h and accessors[] (bridged to the header macros): "
+            "fetch = bit replication, store keeps the MSBs, store/fetch identities on the defined bits, absent alpha reads opaque, "
+            "absent colour zero, widening 0->0 max->max strictly monotone, narrow(widen)=id, stores change only the addressed pixel's "
+            "bits for 1/4/8/16/24/32 bpp, scanline = map of pixel fetch, indexed formats through a palette — for all pixel values; "
+            "exhaustive <=16 bpp values at every word phase, edge/random 24/32/10-bit, direct vs accessor-callback images on both "
+            "chains against the model and an independent bit-stream oracle.",
+            TB + "Partial: float paths (10-bit, sRGB, float formats) are proved over exact rationals (IEEE rounding of unorm_to_float not "
+            "modelled, *_partial); accessor equivalence and yuy2 by correspondence only; yv12 excluded.", TECH, "DESIGN.md 6/C10"),
+    "C19": ("proof",
+            "Model of pixman_fill1_line / fill1/8/16/32 / fast_path_fill, sse2/mmx fill and blt as address-range programs, the "
+            "delegation chain, color_to_pixel and pixman_image_fill_boxes/rectangles (region algebra from C05, pixel model from C01): "
+            "every fill sets exactly the rectangle (all x, width, stride incl. negative, height), SIMD row programs tile the row "
+            "exactly once with aligned stores, blt copies exactly the rectangle, TRUE => exact / FALSE => unchanged along the chain, "
+            "the fill_boxes shortcut and the compositing route act on exactly box & bounds & clip; exhaustive small sweep on 4 "
+            "implementation chains with a bit-exact oracle and a solid-composite reference for all operators and 30 formats.",
+            TB + "color_to_pixel = store-format narrowing is tied by correspondence only; SIMD stores are modelled at byte granularity.",
+            TECH, "DESIGN.md 6/C19"),
+})
+
 REASON_PENDING = "not yet claimed: check under construction (DESIGN.md section 6)"
 
 
